@@ -133,6 +133,18 @@ PStrokeWidth == <<115,116,114,111,107,101,45,119,105,100,116,104,58,32>>
 PFill == <<102,105,108,108,58,32>>
 PFontFamily == <<102,111,110,116,45,102,97,109,105,108,121,58,32>>
 PFontSize == <<102,111,110,116,45,115,105,122,101,58,32>>
+\* the same question put to the sheet cut into rules (doc.css: <<selector, << <<property, value>> >> >>), for a sheet that is
+\* laid out differently: some rule with this selector declares this property with this value
+DropLast2(seq) == SubSeq(seq, 1, Len(seq) - 2)                  \* "stroke: " -> "stroke"
+CssHas(css, selector, prop, value) ==
+  \E i \in 1..Len(css) : /\ css[i][1] = selector
+     /\ \E j \in 1..Len(css[i][2]) : css[i][2][j][1] = DropLast2(prop) /\ css[i][2][j][2] = value
+StyleReflectsCss(css, v) ==
+  /\ CssHas(css, SelLines, PStroke, v.stroke) /\ CssHas(css, SelLines, PStrokeWidth, v.width)
+  /\ CssHas(css, SelText, PFill, v.stroke) /\ CssHas(css, SelText, PFontFamily, v.font)
+  /\ CssHas(css, SelText, PFontSize, v.size \o <<112, 120>>)
+  /\ CssHas(css, SelBackdrop, PFill, v.back) /\ CssHas(css, SelBgFilled, PFill, v.back) /\ CssHas(css, SelNofill, PFill, v.back)
+  /\ CssHas(css, SelFilled, PFill, v.fill)
 StyleReflects(style, v) ==
   /\ RuleHas(style, SelLines, PStroke \o v.stroke) /\ RuleHas(style, SelLines, PStrokeWidth \o v.width)
   /\ RuleHas(style, SelText, PFill \o v.stroke) /\ RuleHas(style, SelText, PFontFamily \o v.font)
@@ -158,8 +170,9 @@ SettingsVariant(a, ev) ==
        [] k = "cosmetic" ->       \* colours, font, stroke: only the style sheet changes
             /\ SameBody(da, db) /\ SameFrame(da, db) /\ da.order = db.order
             /\ da.nstyle = db.nstyle /\ da.ndefs = db.ndefs /\ da.nbackdrop = db.nbackdrop
-            /\ Len(db.style) = Len(da.style)
-            /\ StyleReflects(db.style, ev.rel.vals)
+            \* (as the sheet is laid out today, line by line; or, laid out in any other way, rule by rule)
+            /\ \/ (Len(db.style) = Len(da.style) /\ StyleReflects(db.style, ev.rel.vals))
+               \/ ("css" \in DOMAIN db /\ Len(db.css) = Len(da.css) /\ StyleReflectsCss(db.css, ev.rel.vals))
        [] k = "override" ->       \* an overridden size changes only root and backdrop dimensions
             /\ SameBody(da, db) /\ da.style = db.style /\ da.order = db.order
             /\ db.w = ev.rel.w /\ db.h = ev.rel.h /\ db.backdrop = <<0, 0, ev.rel.w, ev.rel.h>>
